@@ -19,6 +19,7 @@ import (
 	"fmt"
 	"github.com/echovault/sugardb/internal"
 	"github.com/echovault/sugardb/internal/constants"
+	"github.com/gobwas/glob"
 	"strings"
 )
 
@@ -34,7 +35,19 @@ func handleSubscribe(params internal.HandlerFuncParams) ([]byte, error) {
 		return nil, errors.New(constants.WrongArgsResponse)
 	}
 
+	if params.Connection == nil {
+		return nil, errors.New("subscribing requires a connection")
+	}
+
 	withPattern := strings.EqualFold(params.Command[0], "psubscribe")
+	if withPattern {
+		// Refuse the whole command when one of the patterns does not compile.
+		for _, pattern := range channels {
+			if _, err := glob.Compile(pattern); err != nil {
+				return nil, fmt.Errorf("invalid pattern %s", pattern)
+			}
+		}
+	}
 	pubsub.Subscribe(params.Context, params.Connection, channels, withPattern)
 
 	return nil, nil
@@ -80,7 +93,7 @@ func handlePubSubChannels(params internal.HandlerFuncParams) ([]byte, error) {
 		pattern = params.Command[2]
 	}
 
-	return pubsub.Channels(pattern), nil
+	return pubsub.Channels(pattern)
 }
 
 func handlePubSubNumPat(params internal.HandlerFuncParams) ([]byte, error) {
